@@ -27,7 +27,7 @@ func checkC08(p *Prog, r *Report) {
 	// the resolver and the Value accessors it relies on cannot panic on any value kind
 	inScope := func(f *ssa.Function) bool {
 		top := topLevel(f)
-		if top == res {
+		if top == res || reflectCallWrapper(p, top) {
 			return true
 		}
 		if recv := top.Signature.Recv(); recv != nil {
@@ -64,6 +64,8 @@ func reflectCallsIn(p *Prog, f *ssa.Function, m string) []*ssa.Call {
 		for _, in := range b.Instrs {
 			if c, ok := in.(*ssa.Call); ok && c.Common().StaticCallee() != nil && p.extName(c.Common().StaticCallee()) == "(reflect.Value)."+m {
 				out = append(out, c)
+			} else if ok && m == "Call" && reflectCallWrapper(p, c.Common().StaticCallee()) {
+				out = append(out, c) // same argument layout: (fn, args)
 			}
 		}
 	}
